@@ -59,7 +59,7 @@ pub enum Rec {
 
 /// Packet target: a bounded buffer that records the frames loaded into it.
 pub struct Pkt {
-    buf: BytesMut,
+    pub(crate) buf: BytesMut,
     cap: usize,
     pub recs: Vec<Rec>,
 }
